@@ -134,6 +134,8 @@ type abortSentinel struct{}
 type Kernel struct {
 	ch      Chooser
 	tasks   []*Task
+	live    []*Task // tasks that have not finished (and finished ones not yet compacted away), in ID order
+	nDone   int     // finished tasks still in live
 	running *Task
 	last    *Task
 	nReal   int
@@ -274,6 +276,7 @@ func (k *Kernel) Spawn(name string, group int, tag any, fn func()) *Task {
 	t := &Task{ID: len(k.tasks), Name: name, Group: group, Tag: tag, wake: make(chan struct{})}
 	t.state = Parked
 	k.tasks = Push(k.tasks, t)
+	k.live = Push(k.live, t)
 	parent := k.running
 	switch {
 	case parent != nil:
@@ -322,6 +325,7 @@ func (k *Kernel) taskMain(t *Task, fn func()) {
 		}
 		k.logf("done t%d", t.ID)
 		t.setState(Done)
+		k.nDone++
 	}()
 	k.park(t)
 	if t.Group > 0 && t.Group < len(k.groupSync) {
@@ -400,7 +404,22 @@ func (k *Kernel) FailNow(t *Task, kind, msg string) {
 func (k *Kernel) runnable() []*Task {
 	var cands []*Task
 	var lastT *Task
-	for _, t := range k.tasks {
+	if k.nDone > 64 && k.nDone*2 > len(k.live) {
+		// drop finished tasks from the list the hot loops walk (runs of tens of
+		// thousands of calls); no loop over k.live is active here
+		j := 0
+		for _, t := range k.live {
+			if t.State() != Done {
+				k.live[j] = t
+				j++
+			}
+		}
+		for i := j; i < len(k.live); i++ {
+			k.live[i] = nil
+		}
+		k.live, k.nDone = k.live[:j], 0
+	}
+	for _, t := range k.live {
 		switch t.State() {
 		case Parked:
 		case BlockedSelect:
@@ -427,7 +446,7 @@ func (k *Kernel) runnable() []*Task {
 
 //go:norace
 func (k *Kernel) groupBusy(t *Task) bool {
-	for _, o := range k.tasks {
+	for _, o := range k.live {
 		if o.ID >= t.ID {
 			return false
 		}
@@ -533,7 +552,7 @@ func (k *Kernel) recountReal() {
 		return
 	}
 	n := 0
-	for _, t := range k.tasks {
+	for _, t := range k.live {
 		if t.State() == BlockedReal {
 			n++
 		}
@@ -598,7 +617,7 @@ func (k *Kernel) RunUntil(pred func() bool) {
 //go:norace
 func (k *Kernel) Blocked(states ...State) []*Task {
 	var out []*Task
-	for _, t := range k.tasks {
+	for _, t := range k.live {
 		s := t.State()
 		for _, w := range states {
 			if s == w {
@@ -614,7 +633,7 @@ func (k *Kernel) Blocked(states ...State) []*Task {
 //go:norace
 func (k *Kernel) Live() []*Task {
 	var out []*Task
-	for _, t := range k.tasks {
+	for _, t := range k.live {
 		if t.State() != Done {
 			out = append(out, t)
 		}
